@@ -3,7 +3,7 @@ real code, which facts must have been witnessed (non-vacuity) and what makes a r
 
 COMMON_ASSUMPTIONS = [
     "Kubernetes is client-go's fake clientset (object tracker) with harness-owned listers; informer caches are represented by a harness snapshot (optionally lagging)",
-    "AWS is a stateful simulation (harness/world/simaws.go): SetDesiredCapacity refused outside [min,max]; terminate-with-decrement refused below min; a terminated instance leaves the member list at once; AttachInstances <= 20 ids; TerminateInstances <= 1000 ids; instant fleets all-or-nothing",
+    "AWS is a stateful simulation (harness/world/simaws.go): SetDesiredCapacity refused outside [min,max]; terminate-with-decrement refused below min; a terminated instance leaves the member list at once, or (linger) stays listed as Terminating, refusing further terminate calls, until the cloud drops it; AttachInstances <= 20 ids; TerminateInstances <= 1000 ids; instant fleets all-or-nothing",
     "time is virtual: one tick = 1 h, produced by moving every stored instant into the past; thresholds sit at half ticks, so > versus >= exactly at a threshold instant is not distinguished",
     "exhaustive model checking is for one node group with 2 (quick) or 2-3 (thorough) nodes and unit pods; larger worlds (up to 3 groups, ~10 nodes, mixed pod sizes) are sampled by seeded drivers and validated line by line",
     "TLC, the CommunityModules Json reader and the harness projection (harness/world) are trusted; the projection is exercised by ./check selftest",
@@ -28,17 +28,19 @@ def ctl(families_q, families_t, dq, dt, rule, required, nontrivial=None, emit_q=
 
 
 PLANS = {
-    "C01": ctl(["reap", "force", "crash", "overmax", "all_reap"], ["reap", "reap@v2", "force", "crash", "overmax", "cordon", "all_reap"],
-               [D("reap", odd=True, faults=12, enum=10), D("mix", lag=True, odd=True), D("cycle", n=20, steps=90, groups=1, faults=3, dry=0),
+    "C01": ctl(["reap", "force", "crash", "overmax", "linger", "all_reap", "all_overmax"], ["reap", "reap@v2", "force", "crash", "overmax", "cordon", "linger", "lag", "all_reap", "all_overmax"],
+               [D("reap", odd=True, faults=12, enum=10, twin=True), D("mix", lag=True, odd=True, twin=True), D("cycle", n=20, steps=90, groups=1, faults=3, dry=0, twin=True),
+                D("overmax", n=24, steps=70, groups=1, faults=3, dry=0, twin=True),
                 # real time (4 s ticks, really elapsing): time the controller remembers by itself ages too
                 D("cycle", n=32, steps=36, procs=1, par=32, groups=1, faults=3, dry=0, realtime="4s")],
-               [D("reap", n=60, steps=100, procs=8, odd=True, faults=12, enum=10), D("mix", n=60, steps=100, procs=8, lag=True, odd=True),
-                D("cycle", n=80, steps=120, procs=8, groups=1, faults=3, dry=0),
+               [D("reap", n=60, steps=100, procs=8, odd=True, faults=12, enum=10, twin=True), D("mix", n=60, steps=100, procs=8, lag=True, odd=True, twin=True),
+                D("cycle", n=80, steps=120, procs=8, groups=1, faults=3, dry=0, twin=True),
+                D("overmax", n=120, steps=90, procs=8, groups=1, faults=3, dry=0, twin=True),
                 D("cycle", n=64, steps=70, procs=2, par=32, groups=1, faults=3, dry=0, realtime="4s")],
                "cases: every (state, fault set) sampled from the TLC-explored graphs replayed as one real scan, plus scans of seeded random histories; "
                "non-trivial: a scan in which a node was removed under clause (a), (b) or (c), or a tainted / force-tainted / cordoned node was kept; distinct by (pre-state, fault set)",
                ["C01:crashed-mid-scan", "C01:removed-a", "C01:removed-b", "C01:removed-c", "C01:kept-soft-not-passed", "C01:kept-busy-before-hard",
-                "C01:kept-unreadable-taint-time", "C01:kept-cordoned", "C01:kept-force-busy"]),
+                "C01:kept-unreadable-taint-time", "C01:kept-cordoned", "C01:kept-force-busy", "C01:restart-twin", "C01:over-max-with-busy-tainted-node"]),
     "C02": ctl(["lock"], ["lock", "lock@v2", "lock@v3"],
                [D("lock", twin=True, faults=8), D("mix", twin=True), D("lock", n=32, steps=32, procs=1, par=32, groups=2, faults=5, realtime="4s"),
                 D("lock", n=3, steps=45, procs=8, faults=20, refresh=True, groups=2)],
@@ -63,12 +65,12 @@ PLANS = {
                [D("down", n=60, steps=100, procs=6, faults=0, dry=0), D("up", n=60, steps=100, procs=6, faults=0, dry=0, fine=True), D("mix", n=60, steps=100, procs=6, faults=0, dry=0, fine=True)],
                "non-trivial: a fault-free scan of an unlocked, in-bounds group, classified by the exact band of max(cpu%, mem%) (incl. exactly on a threshold) and by the starve / max-age triggers",
                ["C06:band-fast", "C06:band-slow", "C06:band-none", "C06:band-up", "C06:on-threshold", "C06:starve", "C06:max-age"]),
-    "C07": ctl(["updown", "forceup", "all_scale"], ["updown", "updown@v2", "updown@v3", "forceup", "lock", "all_scale"],
+    "C07": ctl(["updown", "forceup", "all_scale"], ["updown", "updown@v2", "updown@v3", "forceup", "lock", "lag", "all_scale"],
                [D("up", faults=25), D("mix", faults=20)],
                [D("up", n=60, steps=100, procs=8, faults=25), D("mix", n=60, steps=100, procs=8, faults=20)],
                "non-trivial: a scale-up scan (band decision or below-minimum recovery), esp. with tainted nodes reused, capacity bought after reuse or after a same-scan removal, creation-time ties",
                ["C07:scale-up", "C07:reused", "C07:reused-and-bought", "C07:removed-then-bought", "C07:ties"]),
-    "C08": ctl(["updown", "all_scale"], ["updown", "updown@v2", "updown@v3", "all_scale"],
+    "C08": ctl(["updown", "all_scale"], ["updown", "updown@v2", "updown@v3", "lag", "all_scale"],
                [D("down", faults=30, nodes=8), D("mix", faults=20)],
                [D("down", n=60, steps=100, procs=8, faults=30, nodes=8), D("mix", n=60, steps=100, procs=8, faults=20)],
                "non-trivial: a scan that tainted nodes, esp. leaving some untainted, with creation-time ties, with a failed write skipped",
@@ -88,12 +90,12 @@ PLANS = {
                [D("mix", n=50, steps=100, procs=6, dry=60), D("reap", n=50, steps=100, procs=6, dry=60), D("up", n=50, steps=100, procs=6, dry=60)],
                "non-trivial: a scan of a dry-mode group, by the branch the scan took (scale-up, scale-down, reaping, below-minimum, from zero) and switch (global / group)",
                ["C11:dry-up", "C11:dry-down", "C11:dry-idle", "C11:dry-taint", "C11:dry-untaint", "C11:dry-cloud-increase", "C11:group-flag", "C11:global-flag"]),
-    "C15": ctl(["updown"], ["updown", "reap"],
+    "C15": ctl(["updown", "lag"], ["updown", "reap", "lag"],
                [D("mix", lag=True, faults=10), D("down", lag=True, faults=10)],
                [D("mix", n=60, steps=100, procs=8, lag=True, faults=10), D("down", n=60, steps=100, procs=8, lag=True, faults=10)],
                "non-trivial: a scan that wrote or removed the escalator taint (object diff of every PUT against the API copy), or met an already tainted node behind a lagging lister view",
                ["C15:taint-write", "C15:untaint-write", "C15:lagging-view-already-tainted"]),
-    "C20": ctl(["reap"], ["reap", "updown"],
+    "C20": ctl(["reap", "linger"], ["reap", "updown", "linger", "lag"],
                [D("mix", odd=True, lag=True, faults=45, enum=15), D("reap", odd=True, faults=45, enum=15), D("lock", odd=True, faults=30, enum=20)],
                [D("mix", n=60, steps=100, procs=8, odd=True, lag=True, faults=45, enum=15, enum2=True), D("reap", n=60, steps=100, procs=8, odd=True, faults=45, enum=15, enum2=True),
                 D("lock", n=40, steps=100, procs=8, odd=True, faults=30, enum=20, enum2=True)],
@@ -140,7 +142,7 @@ PLANS["C19"] = dict(kind="func", stages=[aws_stage([GRID_Q], [GRID_T], max_q=150
                     rule="provider level: every (min, desired, instance list, node list with members / foreign nodes at every position, failing terminate) of the grid run through the real "
                          "NodeGroup.DeleteNodes; controller level: order of cloud and Node deletes along histories and model states",
                     required_facts=["del-not-in-group", "del-all-terminated", "del-refused-whole", "del-terminate-failed"], assumptions=AWS_ASSUMPTIONS + COMMON_ASSUMPTIONS,
-                    also_ctl=ctl(["force", "batches"], ["reap", "force", "batches"],
+                    also_ctl=ctl(["force", "batches", "linger"], ["reap", "force", "batches", "linger"],
                                  [D("reap", faults=30, odd=True), D("mix", faults=25, lag=True)],
                                  [D("reap", n=60, steps=100, procs=8, faults=30, odd=True), D("mix", n=60, steps=100, procs=8, faults=25, lag=True)],
                                  "see provider level", ["C19:node-deletes", "C19:terminate-failed", "C19:not-in-group", "C19:down-to-minimum"]))
